@@ -730,6 +730,11 @@ Again:
 
 	case recordTypeHandshake:
 		// TODO(rsc): Should at least pick off connection close.
+		if want == recordTypeChangeCipherSpec {
+			// A handshake message where the peer's ChangeCipherSpec is due. The
+			// renegotiation exemption below is for application data reads only.
+			return c.in.setErrorLocked(c.sendAlert(alertUnexpectedMessage))
+		}
 		if typ != want && !(c.isClient && c.config.Renegotiation != RenegotiateNever) {
 			return c.in.setErrorLocked(c.sendAlert(alertNoRenegotiation))
 		}
